@@ -121,7 +121,7 @@ def parse_text(text, fname="t.f90", workdir=None, **settings):
             f = sf.FortranSourceFile(p, st, None, fname.endswith((".f", ".for", ".F")))
         return ("ok", file_node(f), buf.getvalue())
     except BaseException as e:  # noqa  (StopIteration and friends included)
-        if isinstance(e, (KeyboardInterrupt, SystemExit)):
+        if isinstance(e, (KeyboardInterrupt, SystemExit)) or type(e).__name__ == "Timeout":
             raise
         return ("err", type(e).__name__, buf.getvalue())
     finally:
